@@ -10,7 +10,7 @@ reached only with real files:
     directory: ENOENT) | fsize:<n> (RLIMIT_FSIZE for the session: EFBIG beyond n bytes on fork, data file and spool alike)
 
 Cases (deterministic): every SD2 encoding x {w, rw, r} x every side kind, the data file on /dev/full with a healthy fork, the four
-ALAC encodings under fsize 0 / 4096 / 40000.  Each case is its own `ledger begin` … `ledger end` script.
+ALAC encodings under fsize 0 / 4096 / 40000 and with the data file on /dev/full (healthy spool).  Each case is its own `ledger begin` … `ledger end` script.
 Verdict: Sf.RsrcSwap.obsOk (`sfmodel second judge`): a failing open reports an error, no descriptor is left open, the lowest free
 descriptor number is the old one, no close () of the library failed with EBADF (a double close), the heap is balanced.  For the SD2
 write opens the outcome (NULL or not, descriptors, EBADF) is also compared with the model (`sfmodel second model`:
@@ -42,6 +42,8 @@ def cases():
     for (word, nm) in ALAC:
         for lim in (0, 4096, 40000):
             out.append(("caf-%s-w-fsize%d" % (nm, lim), "second try s0 w fmt=%x ch=2 sr=44100 ext=caf side=fsize:%d frames=6000" % (word, lim), None))
+        # the spool is healthy, the DATA file is not: alac_close copies the spool into a file that accepts nothing
+        out.append(("caf-%s-w-datafull" % nm, "second try s0 w fmt=%x ch=2 sr=44100 ext=caf side=none data=full frames=6000" % word, None))
     return out
 
 
